@@ -215,10 +215,64 @@ pub fn op_cmp(p: &Pointer, q: &Pointer) -> String {
             law_alias.ck(pcs.iter().all(|x| *x == Some(want_ord)), "ord_depends_on_aliasing");
         }
     }
+    // ---- buffers with a history: a PointerBuf that has been compared, cleared, popped empty or refilled must
+    // compare, order and hash like a freshly parsed one with the same text (no state may survive in the value)
+    let mut law_reuse = Law::new();
+    {
+        let fresh_p: PointerBuf = pb.clone();
+        let mut hist: Vec<PointerBuf> = Vec::new();
+        {   // root, compared while root, then filled by append
+            let mut a = PointerBuf::new();
+            let _ = a == PointerBuf::new();
+            let _ = a == qb;
+            a.append(p);
+            hist.push(a);
+        }
+        {   // holds Q, compared, cleared, refilled with P's tokens one by one (comparisons in between)
+            let mut a = qb.clone();
+            let _ = a == qb;
+            let _ = a.partial_cmp(&pb);
+            a.clear();
+            let _ = a == PointerBuf::new();
+            for t in p.tokens() { a.push_back(t); let _ = a == qb; }
+            hist.push(a);
+        }
+        {   // holds Q, popped empty from the front, then P appended
+            let mut a = qb.clone();
+            let _ = a == qb;
+            while a.pop_front().is_some() {}
+            let _ = a == PointerBuf::new();
+            a.append(p);
+            hist.push(a);
+        }
+        {   // P built back to front with push_front after a replace on the old content
+            let mut a = qb.clone();
+            let _ = a.replace(0, "x");
+            let _ = a == qb;
+            a.clear();
+            let toks: Vec<_> = p.tokens().collect();
+            for t in toks.into_iter().rev() { a.push_front(t); }
+            hist.push(a);
+        }
+        fn h<T: Hash + ?Sized>(t: &T) -> u64 { let mut s = DefaultHasher::new(); t.hash(&mut s); s.finish() }
+        for a in &hist {
+            law_reuse.ck(a.as_str() == pt, "history_text");          // (C11's business; reported if it ever fails)
+            law_reuse.ck(*a == fresh_p && fresh_p == *a, "buf_eq_buf_after_history");
+            law_reuse.ck(<PointerBuf as PartialEq<Pointer>>::eq(a, p) && <Pointer as PartialEq<PointerBuf>>::eq(p, a), "buf_eq_ptr_after_history");
+            law_reuse.ck((*a == qb) == (pt == qt), "buf_eq_other_after_history");
+            law_reuse.ck(a.partial_cmp(&qb) == Some(pt.cmp(qt)) && a.cmp(&qb) == pt.cmp(qt), "buf_cmp_after_history");
+            law_reuse.ck(<PointerBuf as PartialOrd<Pointer>>::partial_cmp(a, q) == Some(pt.cmp(qt)), "buf_cmp_ptr_after_history");
+            law_reuse.ck(h::<PointerBuf>(a) == h::<str>(pt), "hash_after_history");
+            let mut hm: HashMap<PointerBuf, u8> = HashMap::new();
+            hm.insert(fresh_p.clone(), 1);
+            law_reuse.ck(hm.get(a).copied() == Some(1), "hashmap_lookup_by_reused_buf");
+        }
+    }
     o.law("law_ops", &law_ops);
     o.law("law_hash", &law_hash);
     o.law("law_maps", &law_maps);
     o.law("law_alias", &law_alias);
+    o.law("law_reuse", &law_reuse);
     o.finish()
 }
 
@@ -303,6 +357,17 @@ pub fn op_zc_ptr(p: &Pointer) -> String {
     }
     zc!("root", Pointer::root());
     zc!("buf_new", PointerBuf::new());
+    {
+        // … and again after other buffers have lived and died in this process: a buffer holding P cleared,
+        // one popped empty, one dropped, one grown by pushes (whatever they leave behind must not make the
+        // next `PointerBuf::new()` / `root()` allocate)
+        let mut b = p.to_buf(); b.clear(); drop(b);
+        let mut b = p.to_buf(); while b.pop_back().is_some() {} drop(b);
+        let mut b = p.to_buf(); for _ in 0..4 { b.push_back("grow"); } b.clear(); drop(b);
+        zc!("buf_new", PointerBuf::new());
+        zc!("buf_new", PointerBuf::root());
+        zc!("root", Pointer::root());
+    }
     {
         let bx: Box<Pointer> = Box::<Pointer>::from(p.to_buf());
         zc!("into_buf", bx.into_buf());
